@@ -10,7 +10,7 @@ use serde_json::{json, Value};
 pub static ENGINE: Engine = Engine {
     prop: "C15",
     level: "exploration",
-    rule: "the real n_queens_gen binary for every board size n = 1..N: (a) the reference lexer/parser accept the text and its variables are exactly v_0..v_(n*n-1); (b) the exact model set of the emitted formula under the reference semantics (all 2^(n*n) assignments for n <= 4; exhaustive constraint-DFS enumeration that only cuts a branch when a top-level conjunct is already false for n <= 8 (10)) equals the set of placements found by an independent backtracking solver; (c) the real `rsbdd <file> -t -f true` lists exactly those placements for n <= 6 (7); (d) for every n <= 12 and for n in {13,15,16,17,31,32,33,64,100,127,128,129,181,182,183,255,256,257,300,316,317,350,500}, thorough also 1001 and 1025 (structure only): the `= 1` lists are exactly the rows and columns and the `<= 1` lists exactly the 2(2n-1) diagonals, each once, every attacking pair of squares shares a list, no list holds a non-attacking pair, and every reference solution satisfies the formula. Even sizes are read from stdout, odd sizes from an existing, longer OUTPUT file whose name has a blank and a quote. distinct = distinct (n, observation) pairs + distinct models compared",
+    rule: "the real n_queens_gen binary for every board size n = 1..N: (a) the reference lexer/parser accept the text and its variables are exactly v_0..v_(n*n-1); (b) the exact model set of the emitted formula under the reference semantics (all 2^(n*n) assignments for n <= 4; exhaustive constraint-DFS enumeration that only cuts a branch when a top-level conjunct is already false for n <= 8 (10)) equals the set of placements found by an independent backtracking solver; (c) the real `rsbdd <file> -t -f true` lists exactly those placements for n <= 6 (7); (d) for every n <= 12 and for n in {13,15,16,17,31,32,33,64,100,127,128,129,181,182,183,255,256,257,300,316,317,350,500,683}, thorough also 911, 1001 and 1025 (structure only): the `= 1` lists are exactly the rows and columns and the `<= 1` lists exactly the 2(2n-1) diagonals, each once, every attacking pair of squares shares a list, no list holds a non-attacking pair, and every reference solution satisfies the formula. Even sizes are read from stdout, odd sizes from an existing, longer OUTPUT file whose name has a blank and a quote. distinct = distinct (n, observation) pairs + distinct models compared",
     assumptions: &["reference semantics (harness/src/puzzles.rs, refl.rs); brute-force n-queens solver", "exact model-set equality up to n = 10, structural exactness up to n = 12"],
     max_shards: 16,
     run,
@@ -223,11 +223,12 @@ fn run(ctx: &mut Ctx) {
         jobs.push((n, "structure"));
     }
     // larger boards, in particular around the limits of 8- and 16-bit arithmetic
-    for n in [13usize, 15, 16, 17, 31, 32, 33, 64, 100, 127, 128, 129, 181, 182, 183, 255, 256, 257, 300, 316, 317, 350, 500] {
+    for n in [13usize, 15, 16, 17, 31, 32, 33, 64, 100, 127, 128, 129, 181, 182, 183, 255, 256, 257, 300, 316, 317, 350, 500, 683] {
         jobs.push((n, "structure"));
     }
     if th {
         // seven-digit square indices (a 60 MB formula; about three minutes for one worker)
+        jobs.push((911, "structure"));
         jobs.push((1001, "structure"));
         jobs.push((1025, "structure"));
     }
